@@ -14,6 +14,9 @@ Tie (model `Qats.Export` vs /repo, exact Rat execution on dyadic inputs):
 Search (oracles on the unpatched implementation): export -> `TsDB.fromfile` -> arrays compared with `getda(**kwargs)` at the
 format's precision for the four formats x options x in-memory / file-backed databases; "differing processed time arrays
 were written"; "target modified although export raised"; `is_common_time` on lattice series.
+Known findings reported through matchers (ids below): F19 (.dat name like time*), F19b (.pkl name 'Time'), F30 (fewer than two
+processed samples), F31 ('.ts' elsewhere in the target path), F32 (resample given as a list + .ts).  The model also encodes
+that `_check_time_arrays` raises TypeError for non-overlapping series (robustness defect, the export is still refused).
 """
 import contextlib
 import datetime
@@ -1082,7 +1085,7 @@ def eval_e2e(case, root):
     # names
     if case["basename"] or len(keys) == 1:
         want = list(exp_names)
-        okn = (sorted(got_names) == sorted(want)) if ext == ".h5" else (got_names == want)
+        okn = sorted(got_names) == sorted(want)         # (the order of the records is not part of the property; h5 sorts them)
         if not okn:
             fails.append(("reloaded names equal the exported names", want, got_names, xtra))
             return fails, info
